@@ -67,12 +67,9 @@ func (r *REPL) SetUI(term UI) {
 
 // Run runs a single line of the REPL
 func (r *REPL) Run(line string) error {
-	// Override the PrintExpr output temporarily
-	oldPrintExpr := vm.PrintExpr
-	vm.PrintExpr = r.term.Print
-	defer func() {
-		vm.PrintExpr = oldPrintExpr
-	}()
+	// Override the PrintExpr output of this context temporarily
+	vm.SetPrintExpr(r.Context, r.term.Print)
+	defer vm.SetPrintExpr(r.Context, nil)
 	if r.continuation {
 		if line != "" {
 			r.previous += string(line) + "\n"
